@@ -40,7 +40,7 @@ import (
 //     Int.SetModSymmetric). Exp is square-and-multiply over the announced length of the exponent on
 //     the model value, ModInverse a fresh value w with w*x = 1 (mod m) (extended Euclid while the key
 //     is being built). Any other saferith method is not-encodable. Every harness asserts
-//     (verifAssertGhost) that the model stayed inside its domain of exactness (verifEscaped == 0).
+//     (verifAssertGhost) that the model stayed inside its domain of exactness (verifEscaped|verifEscapedInv == 0).
 //   - four numct functions that go through math/big or copy saferith structs by value:
 //     (*Nat).IsProbablyPrime (trial division), (*ModulusBasic).modInvEven (inverse modulo p-1, q-1 in
 //     precompute()), (*ModulusBasic).ModI, (*ModulusBasic).Set.
@@ -184,7 +184,6 @@ func verifSetup(p, q uint64) *verifEnv {
 	e.sk, err = NewSecretKey(g)
 	verifMust(err)
 	e.pk = e.sk.Public()
-	verifSymPhase = true // from here on modular inverses of the model are solver values
 	return e
 }
 
@@ -382,7 +381,7 @@ func verifDecEnc(e *verifEnv) {
 	c := e.encrypt(false, m, r)
 	verifAssert("decenc.pk_enc_is_rep_times_noise", verifCtVal(c) == e.enc(mv, rv))
 	verifAssert("decenc.dec_of_enc_is_m", e.dec(c) == mv)
-	verifAssertGhost("decenc.model_exact", verifEscaped == 0)
+	verifAssertGhost("decenc.model_exact", verifEscaped|verifEscapedInv == 0)
 }
 
 func verifEncFlavours(e *verifEnv) {
@@ -403,7 +402,7 @@ func verifEncFlavours(e *verifEnv) {
 	verifLemma("encsk.sk_noise_crt_eq_pk", verifCtVal(y) == verifCtVal(x))
 	c := e.encrypt(true, m, r)
 	verifAssert("encsk.sk_enc_is_product", verifCtVal(c) == e.mulNN(verifCtVal(b), verifCtVal(y)))
-	verifAssertGhost("encsk.model_exact", verifEscaped == 0)
+	verifAssertGhost("encsk.model_exact", verifEscaped|verifEscapedInv == 0)
 }
 
 func verifSymmetric(e *verifEnv) {
@@ -434,7 +433,7 @@ func verifSymmetric(e *verifEnv) {
 	// outside the range the constructor refuses
 	_, err = NewPlaintextSymmetric(verifMkScalar(neg, mag+h+1), e.pk.Group().N())
 	verifAssert("sym.out_of_range_refused", err != nil)
-	verifAssertGhost("sym.model_exact", verifEscaped == 0)
+	verifAssertGhost("sym.model_exact", verifEscaped|verifEscapedInv == 0)
 }
 
 func verifOpen(e *verifEnv) {
@@ -446,7 +445,7 @@ func verifOpen(e *verifEnv) {
 	om, or := e.open(c)
 	verifAssert("open.plaintext", om == mv)
 	verifAssert("open.nonce", or == rv)
-	verifAssertGhost("open.model_exact", verifEscaped == 0)
+	verifAssertGhost("open.model_exact", verifEscaped|verifEscapedInv == 0)
 }
 
 func H_paillier_decenc()        { verifDecEnc(verifSetup(5, 7)) }
@@ -491,7 +490,7 @@ func verifOp(e *verifEnv) {
 	verifMust(err)
 	verifAssert("op.pk_ct3_is_product", verifCtVal(a3) == e.mulNN(e.mulNN(c1v, c2v), c1v))
 	verifAssert("op.sk_ct3_eq_pk", verifCtVal(b3) == verifCtVal(a3))
-	verifAssertGhost("op.model_exact", verifEscaped == 0)
+	verifAssertGhost("op.model_exact", verifEscaped|verifEscapedInv == 0)
 }
 
 func verifOpNoncePlain(e *verifEnv) {
@@ -509,7 +508,7 @@ func verifOpNoncePlain(e *verifEnv) {
 	s, err := e.pk.PlaintextOp(m1, m2)
 	verifMust(err)
 	verifAssert("opnp.plaintext_is_sum", verifPtVal(s) == e.addN(m1v, m2v))
-	verifAssertGhost("opnp.model_exact", verifEscaped == 0)
+	verifAssertGhost("opnp.model_exact", verifEscaped|verifEscapedInv == 0)
 }
 
 func verifSamplePairs(e *verifEnv) [][2]uint64 {
@@ -529,7 +528,7 @@ func verifOpHom(e *verifEnv) {
 	verifMust(err)
 	verifAssert("ophom.product_is_enc_of_sum_and_product", verifCtVal(c) == e.enc(e.addN(m1v, s[0]), e.mulN(r1v, s[1])))
 	verifAssert("ophom.decrypts_to_sum", e.dec(c) == e.addN(m1v, s[0]))
-	verifAssertGhost("ophom.model_exact", verifEscaped == 0)
+	verifAssertGhost("ophom.model_exact", verifEscaped|verifEscapedInv == 0)
 }
 
 func H_paillier_op()         { verifOp(verifSetup(5, 7)) }
@@ -555,7 +554,7 @@ func verifScalarPK(e *verifEnv) {
 	a, err := e.pk.CiphertextScalarOp(c, k)
 	verifMust(err)
 	verifAssert("scalarpk.is_power", verifCtVal(a) == verifPow(cv, mag, e.nn, verifKBits))
-	verifAssertGhost("scalarpk.model_exact_pk", verifEscaped == 0)
+	verifAssertGhost("scalarpk.model_exact_pk", verifEscaped|verifEscapedInv == 0)
 	// ghost: what the secret-key route exponentiates with
 	verifExpLog = nil
 	verifExpLogOn = true
@@ -581,18 +580,24 @@ func verifScalarPK(e *verifEnv) {
 	verifAssertGhost("scalarpk.sk_exponent_mod_p2_is_whole_k", okP == 1)
 	verifAssertGhost("scalarpk.sk_exponent_mod_q2_is_whole_k", okQ == 1)
 	verifAssertGhost("scalarpk.sk_two_exponentiations", cnt == 2)
+	// (verifEscapedInv is left out: OddPrimeSquareFactors.ModExpI inverts the recombined power and
+	// discards the inverse for k >= 0; that the power is a unit is not decided for symbolic c and k)
 	verifAssertGhost("scalarpk.model_exact", verifEscaped == 0)
 }
 
-// verifScalarPKNeg: PK.CiphertextScalarOp(c,-k) * c^k = 1 for all c and all k < 2^kbits.
-func verifScalarPKNeg(e *verifEnv, kbits uint) {
+// verifScalarPKNeg: PK.CiphertextScalarOp(c,-k) = (c^k)^-1 for all c and all k < 2^20, the inverse
+// written as x^(lambda(N^2)-1) like the model's ModInverse (that this IS the inverse of every unit x
+// is obligation opinv.pk_times_c_is_one of H_paillier_opinv, for all x). CiphertextOpInv is not
+// called here: it checks "inverse times x = 1" at run time, a branch the engine cannot refute for a
+// power with a symbolic 20-bit exponent.
+func verifScalarPKNeg(e *verifEnv) {
 	cv, c := e.symCt()
-	mag := verifU64() & (uint64(1)<<kbits - 1)
+	mag := verifU64() & (uint64(1)<<verifKBits - 1)
 	verifReach("scalarpkneg.inputs")
 	a, err := e.pk.CiphertextScalarOp(c, verifMkScalar(true, mag))
 	verifMust(err)
-	verifAssert("scalarpkneg.times_power_is_one", e.mulNN(verifCtVal(a), verifPow(cv, mag, e.nn, int(kbits))) == 1)
-	verifAssertGhost("scalarpkneg.model_exact", verifEscaped == 0)
+	verifAssert("scalarpkneg.is_inverse_of_power", verifCtVal(a) == verifMInverse(verifPow(cv, mag, e.nn, verifKBits), e.nn))
+	verifAssertGhost("scalarpkneg.model_exact", verifEscaped|verifEscapedInv == 0)
 }
 
 // verifKList: scalar magnitudes around the bit widths of N and N^2 and far beyond.
@@ -618,7 +623,7 @@ func verifScalarA(e *verifEnv, thorough bool) {
 	b, err := e.sk.CiphertextScalarOp(c, k)
 	verifMust(err)
 	verifAssert("scalara.sk_eq_pk", verifCtVal(b) == verifCtVal(a))
-	verifAssertGhost("scalara.model_exact", verifEscaped == 0)
+	verifAssertGhost("scalara.model_exact", verifEscaped|verifEscapedInv == 0)
 }
 
 func verifCList(e *verifEnv) []uint64 { return []uint64{2, e.n + 1, e.nn - 1, e.n + 2} }
@@ -640,7 +645,7 @@ func verifScalarB(e *verifEnv, nbits uint) {
 	b, err := e.sk.CiphertextScalarOp(c, k)
 	verifMust(err)
 	verifAssert("scalarb.sk_eq_pk", verifCtVal(b) == verifCtVal(a))
-	verifAssertGhost("scalarb.model_exact", verifEscaped == 0)
+	verifAssertGhost("scalarb.model_exact", verifEscaped|verifEscapedInv == 0)
 }
 
 // verifScalarC: SK = PK for all c, all |k| < 2^3.
@@ -653,7 +658,7 @@ func verifScalarC(e *verifEnv) {
 	b, err := e.sk.CiphertextScalarOp(c, k)
 	verifMust(err)
 	verifAssert("scalarc.sk_eq_pk", verifCtVal(b) == verifCtVal(a))
-	verifAssertGhost("scalarc.model_exact", verifEscaped == 0)
+	verifAssertGhost("scalarc.model_exact", verifEscaped|verifEscapedInv == 0)
 }
 
 // verifScalarHom: Open(Enc(m,r)^k) = (k m, r^k), k from the list, flavours alternating.
@@ -693,20 +698,20 @@ func verifScalarHom(e *verifEnv, thorough bool) {
 	verifMust(err)
 	verifAssert("scalarhom.pk_nonce_scalar_op", verifNcVal(nr) == wantR)
 	verifAssert("scalarhom.sk_nonce_scalar_op_crt", verifNcVal(nr2) == wantR)
-	verifAssertGhost("scalarhom.model_exact", verifEscaped == 0)
+	verifAssertGhost("scalarhom.model_exact", verifEscaped|verifEscapedInv == 0)
 }
 
 func H_paillier_scalar_pk()      { verifScalarPK(verifSetup(5, 7)) }
 func H_paillier_scalar_a()       { verifScalarA(verifSetup(5, 7), false) }
 func H_paillier_scalar_b()       { verifScalarB(verifSetup(5, 7), 6) }
-func H_paillier_scalar_pkneg()   { verifScalarPKNeg(verifSetup(5, 7), 6) }
+func H_paillier_scalar_pkneg()   { verifScalarPKNeg(verifSetup(5, 7)) }
 func H_paillier_scalar_c()       { verifScalarC(verifSetup(5, 7)) }
 func H_paillier_scalar_hom()     { verifScalarHom(verifSetup(5, 7), false) }
 func H_paillier_scalar_pk_T()    { verifScalarPK(verifSetupThorough()) }
 func H_paillier_scalar_a_T()     { verifScalarA(verifSetupThorough(), true) }
 func H_paillier_scalar_a_T35()   { verifScalarA(verifSetup(5, 7), true) }
 func H_paillier_scalar_b_T()     { verifScalarB(verifSetupThorough(), 8) }
-func H_paillier_scalar_pkneg_T() { verifScalarPKNeg(verifSetupThorough(), 8) }
+func H_paillier_scalar_pkneg_T() { verifScalarPKNeg(verifSetupThorough()) }
 func H_paillier_scalar_c_T()     { verifScalarC(verifSetupThorough()) }
 func H_paillier_scalar_hom_T()   { verifScalarHom(verifSetupThorough(), true) }
 
@@ -739,7 +744,7 @@ func verifShift(e *verifEnv) {
 	verifMust(err)
 	verifAssert("shift.pk_is_c_times_rep_delta", verifCtVal(a) == e.mulNN(cv, e.rep(dv)))
 	verifAssert("shift.sk_eq_pk", verifCtVal(b) == verifCtVal(a))
-	verifAssertGhost("shift.model_exact", verifEscaped == 0)
+	verifAssertGhost("shift.model_exact", verifEscaped|verifEscapedInv == 0)
 }
 
 func verifDeltaList(e *verifEnv) []uint64 { return []uint64{0, 1, (e.n - 1) / 2, e.n - 1} }
@@ -761,7 +766,7 @@ func verifShiftHom(e *verifEnv) {
 	verifMust(err)
 	verifAssert("shifthom.is_enc_of_m_plus_delta_same_nonce", verifCtVal(s) == e.enc(e.addN(mv, ds[di]), rv))
 	verifAssert("shifthom.decrypts_to_m_plus_delta", e.dec(s) == e.addN(mv, ds[di]))
-	verifAssertGhost("shifthom.model_exact", verifEscaped == 0)
+	verifAssertGhost("shifthom.model_exact", verifEscaped|verifEscapedInv == 0)
 }
 
 func verifReRand(e *verifEnv) {
@@ -776,7 +781,7 @@ func verifReRand(e *verifEnv) {
 	x, err := e.sk.IdentityNoise(r)
 	verifMust(err)
 	verifAssert("rerand.sk_is_c_times_sk_noise", verifCtVal(b) == e.mulNN(cv, verifCtVal(x)))
-	verifAssertGhost("rerand.model_exact", verifEscaped == 0)
+	verifAssertGhost("rerand.model_exact", verifEscaped|verifEscapedInv == 0)
 }
 
 func verifNonceList(e *verifEnv) []uint64 { return []uint64{1, 2, e.n - 1, e.n - 2} }
@@ -798,7 +803,7 @@ func verifReRandHom(e *verifEnv) {
 	verifMust(err)
 	verifAssert("rerandhom.is_enc_of_m_with_nonce_product", verifCtVal(s) == e.enc(mv, e.mulN(rv, rs[ri])))
 	verifAssert("rerandhom.decrypts_to_m", e.dec(s) == mv)
-	verifAssertGhost("rerandhom.model_exact", verifEscaped == 0)
+	verifAssertGhost("rerandhom.model_exact", verifEscaped|verifEscapedInv == 0)
 }
 
 func verifOpInv(e *verifEnv) {
@@ -810,7 +815,7 @@ func verifOpInv(e *verifEnv) {
 	verifMust(err)
 	verifAssert("opinv.pk_times_c_is_one", e.mulNN(verifCtVal(a), cv) == 1)
 	verifAssert("opinv.sk_crt_eq_pk", verifCtVal(b) == verifCtVal(a))
-	verifAssertGhost("opinv.model_exact", verifEscaped == 0)
+	verifAssertGhost("opinv.model_exact", verifEscaped|verifEscapedInv == 0)
 }
 
 func verifOpInvHom(e *verifEnv) {
@@ -831,7 +836,7 @@ func verifOpInvHom(e *verifEnv) {
 	z, err := e.pk.PlaintextOpInv(m)
 	verifMust(err)
 	verifAssert("opinvhom.plaintext_op_inv", verifPtVal(z) == e.negN(mv))
-	verifAssertGhost("opinvhom.model_exact", verifEscaped == 0)
+	verifAssertGhost("opinvhom.model_exact", verifEscaped|verifEscapedInv == 0)
 }
 
 func H_paillier_shift()        { verifShift(verifSetup(5, 7)) }
@@ -929,7 +934,7 @@ func verifSeqEnd(e *verifEnv, s *verifSeqState) {
 	om, or := e.open(s.c)
 	verifAssert("seq.open_plaintext", om == s.m)
 	verifAssert("seq.open_nonce", or == s.r)
-	verifAssertGhost("seq.model_exact", verifEscaped == 0)
+	verifAssertGhost("seq.model_exact", verifEscaped|verifEscapedInv == 0)
 }
 
 // one sequence of five operations, flavours alternating
